@@ -2,7 +2,9 @@ import TracklibVerif.Lemmas.Expr
 /-! The tree semantics `denoteM` (operator classes as coded, with their number∘feature and
 feature∘number forms and literal folding) agrees with plain *pointwise* evaluation: every leaf is a
 vector (a number is a constant vector) and every operator acts observation by observation. The only
-facts about arithmetic used are the four `Laws` below (true in every field, NaN or not). -/
+facts about arithmetic used are the two `Laws` below: commutativity of `+` and `*` (the number∘feature forms
+`sr+`, `sr*` are bound to the feature∘number operators). Since fix 5676890 the scalar divisions are divisions
+(`x / s`, `s / x`), so the two reciprocal laws `x*(1/s) = x/s`, `(1/x)*s = s/x` — false of IEEE doubles — are gone. -/
 namespace TV.Expr
 open Scalar
 set_option linter.unusedSectionVars false
@@ -10,12 +12,10 @@ set_option linter.unusedSimpArgs false
 variable {α : Type} [Scalar α]
 
 /-- what "ordinary arithmetic" has to satisfy for the scalar forms of the operators to be the
-    pointwise ones: `x+s = s+x`, `x*s = s*x`, `x*(1/s) = x/s`, `(1/x)*s = s/x` (non-zero divisors) -/
+    pointwise ones: `x+s = s+x`, `x*s = s*x` (both hold of IEEE doubles, NaN payloads apart) -/
 structure Laws (α : Type) [Scalar α] : Prop where
   add_comm : ∀ x s : α, add x s = add s x
   mul_comm : ∀ x s : α, mul x s = mul s x
-  mul_inv : ∀ x s : α, isZero s = false → mul x (div one s) = div x s
-  inv_mul : ∀ x s : α, isZero x = false → mul (div one x) s = div s x
 
 /-- every column has one value per observation -/
 def WellSized (tr : Tr α) : Prop :=
@@ -120,7 +120,7 @@ theorem litlit_pointwise (o : Char) (x y w : α) (n : Nat) (h : litOp o x y = .o
   · simpa [h1, h2, h3, h4] using h
 
 /-- feature ∘ number (`s+ s- s* s/ s^ s> s<`) = the operation against the constant vector -/
-theorem veclit_pointwise (L : Laws α) (o : Char) (a c : List α) (s : α) (h : vsOp o a s = .ok c) :
+theorem veclit_pointwise (o : Char) (a c : List α) (s : α) (h : vsOp o a s = .ok c) :
     vvOp o a (List.replicate a.length s) = .ok c := by
   unfold vvOp
   rw [zipWithM'_right_const]
@@ -136,15 +136,13 @@ theorem veclit_pointwise (L : Laws α) (o : Char) (a c : List α) (s : α) (h : 
   · subst h4
     simp only [h1, h2, h3, if_false, if_true] at h ⊢
     cases hz : isZero s with
-    | true => simp [hz] at h
+    | true =>
+      cases a with
+      | nil => simpa [mapM'] using h
+      | cons x xs => simp only [mapM', hz, if_true] at h; cases h
     | false =>
       simp only [hz, Bool.false_eq_true, if_false] at h ⊢
-      rw [mapM'_pure]
-      rw [← h]
-      congr 1
-      apply List.map_congr_left
-      intro x _
-      exact (L.mul_inv x s hz).symm
+      exact h
   by_cases h5 : o = '^'
   · subst h5; simp only [h1, h2, h3, h4, if_false, if_true] at h ⊢; exact h
   by_cases h6 : o = '>'
@@ -153,23 +151,23 @@ theorem veclit_pointwise (L : Laws α) (o : Char) (a c : List α) (s : α) (h : 
   · subst h7; simp only [h1, h2, h3, h4, h5, h6, if_false, if_true] at h ⊢; rw [mapM'_pure]; exact h
   · simp [h1, h2, h3, h4, h5, h6, h7] at h
 
-theorem mapM'_inv_ok (a inv : List α)
-    (h : mapM' (fun x => if isZero x then (Except.error "err:zerodiv" : Except Err α) else .ok (div one x)) a = .ok inv) :
-    (∀ x ∈ a, isZero x = false) ∧ inv = a.map (fun x => div one x) := by
-  induction a generalizing inv with
-  | nil => simp [mapM'] at h; subst h; simp
+/-- `number / x` with Python's ZeroDivisionError on a zero value, when it returns, is `Divider`'s NaN-on-zero quotient -/
+theorem mapM'_div_ok (s : α) (a c : List α)
+    (h : mapM' (fun x => if isZero x then (Except.error "err:zerodiv" : Except Err α) else .ok (div s x)) a = .ok c) :
+    mapM' (fun x => (Except.ok (if isZero x then nan else div s x) : Except Err α)) a = .ok c := by
+  induction a generalizing c with
+  | nil => exact h
   | cons x xs ih =>
-    simp only [mapM'] at h
+    simp only [mapM'] at h ⊢
     obtain ⟨y, hy, h⟩ := bind_ok h
     obtain ⟨ys, hys, h⟩ := bind_ok h
     cases h
-    obtain ⟨h1, h2⟩ := ih ys hys
     cases hz : isZero x with
     | true => simp [hz] at hy
     | false =>
       simp only [hz, Bool.false_eq_true, if_false, Except.ok.injEq] at hy
-      subst hy h2
-      exact ⟨by intro z hz'; simp at hz'; rcases hz' with rfl | hz'; exact hz; exact h1 z hz', by simp⟩
+      subst hy
+      simp [ih ys hys, bind, Except.bind, pure, Except.pure]
 
 /-- number ∘ feature (`sr+ sr- sr* sr/ sr^ sr> sr<`) = the operation with the constant vector on the left -/
 theorem litvec_pointwise (L : Laws α) (o : Char) (a c : List α) (s : α) (h : svOp o s a = .ok c) :
@@ -189,15 +187,7 @@ theorem litvec_pointwise (L : Laws α) (o : Char) (a c : List α) (s : α) (h : 
   by_cases h4 : o = '/'
   · subst h4
     simp only [h1, h2, h3, if_false, if_true] at h ⊢
-    obtain ⟨inv, hinv, h⟩ := bind_ok h
-    obtain ⟨hnz, rfl⟩ := mapM'_inv_ok a inv hinv
-    cases h
-    rw [mapM'_congr _ (fun x => Except.ok (div s x)) a (fun x hx => by simp [hnz x hx]), mapM'_pure]
-    congr 1
-    rw [List.map_map]
-    apply List.map_congr_left
-    intro x hx
-    exact (L.inv_mul x s (hnz x hx)).symm
+    exact mapM'_div_ok s a c h
   by_cases h5 : o = '^'
   · subst h5; simp only [h1, h2, h3, h4, if_false, if_true] at h ⊢; exact h
   by_cases h6 : o = '>'
@@ -374,7 +364,7 @@ theorem denoteM_pointwise (L : Laws α) (tr : Tr α) (hs : WellSized tr) (hn : t
           refine ⟨?_, by intro c' hc'; cases hc'; rw [vsOp_length o x c y hc, hx]⟩
           simp only [Val.toVec]
           rw [← hx]
-          exact veclit_pointwise L o x c y hc
+          exact veclit_pointwise o x c y hc
       | vec y =>
         have hy := lb y rfl
         simp only [nodeBin] at h
